@@ -84,7 +84,7 @@ def range_labels(ctx, b, t, callers):
     return out
 
 
-def check_line_base(ctx, out, name, rule):
+def check_line_base(ctx, out, name, rule, index_by_model=False):
     """The line a line-level validator reports = the content's start line + the enumerate() index of
     the offending content line (shared with C06/C07/C08: `designates the first … line`)."""
     n = 0
@@ -94,7 +94,9 @@ def check_line_base(ctx, out, name, rule):
         out.viol(rule, "%s|%s|anchor" % (rule, name), "-", "no Violation::new site found for validator %s" % name)
         out.inst(rule, 0, 2)
         return
-    loops = linelevel.line_loops(ctx, vb)
+    loops = linelevel.line_loops(ctx, vb) if not index_by_model else []
+    if index_by_model:
+        n += 1      # which content line index is reported is decided by the property's small-model rule
     if len(loops) == 1:
         okc, core = enumerate_chain_ok(ctx, vb, vb.blocks[loops[0][2]]["term"])
         if okc:
@@ -111,12 +113,12 @@ def check_line_base(ctx, out, name, rule):
                 out.viol(rule, "%s|%s|%s|tag-line" % (rule, name, pos), where,
                          "the reported %s line of a %s violation derives from the start tag's position (%s): the tag's line is the wrong base as soon as the comment continues after the tag"
                          % (pos, name, util.origins_text(P.with_field(ll, "start_tag_position_range"), 3)))
-            elif P.has_path(ll, "content_position_range", "start", "line") and P.has_call(ll, r"<impl str>::lines$"):
+            elif P.has_path(ll, "content_position_range", "start", "line") and (index_by_model or P.has_call(ll, r"<impl str>::lines$")):
                 n += 1
             else:
                 out.viol(rule, "%s|%s|%s|base" % (rule, name, pos), where,
                          "the reported %s line of a %s violation derives from [%s]; expected the content's start line plus the enumerate index of the line" % (pos, name, util.origins_text(ll, 6)))
-            bad = sorted({l[1] for l in ll if l[0] == "call" and re.search(r"::(filter|skip|take|rev|count|position|len)$", l[1])})
+            bad = sorted({l[1] for l in ll if l[0] == "call" and re.search(r"::(filter|skip|take|rev|count|position|len)$", l[1])}) if not index_by_model else []
             if bad:
                 out.viol(rule, "%s|%s|%s|index-through" % (rule, name, pos), where,
                          "the reported line passes through %s: the index no longer identifies the content line" % bad)
